@@ -571,7 +571,7 @@ func (c *Ctx) modelRules(r *Report, ss *ssa.Function) {
 			if fa, ok := ref.(*ssa.FieldAddr); ok {
 				for _, r2 := range *fa.Referrers() {
 					if st, ok := r2.(*ssa.Store); ok && st.Addr == ssa.Value(fa) {
-						stored[fieldObj(fa.X.Type(), fa.Field).Name()] = c.term(st.Val)
+						stored[fieldVarName(fieldObj(fa.X.Type(), fa.Field))] = c.term(st.Val)
 					}
 				}
 			}
